@@ -23,6 +23,19 @@
 (*                  / array chemistry), col[declared gas] (its position in  *)
 (*                  the exposed gas list), mix[gas][layer] (exposed), w[gas]*)
 (*                  (molecular masses), mu[layer] (exposed)                 *)
+(*  ev = "reads"    pairs: one record per exposed array (attributes and the *)
+(*                  entries of generate_profiles()) [name, a, b, same]: a   *)
+(*                  and b are the FIRST and the SECOND of two consecutive   *)
+(*                  reads (every array is read once, then every array once  *)
+(*                  more; a fixed sample of entries), same: the two reads   *)
+(*                  have one shape and are equal entry by entry over the    *)
+(*                  whole array; handed: one record per array that was      *)
+(*                  handed to a public call (Planet.calculate_scale_        *)
+(*                  properties, <temperature>.initialize_profile,           *)
+(*                  <chemistry>.initialize_chemistry) [name, a, b, same]:   *)
+(*                  a = the private copy kept by the harness, b = the array *)
+(*                  after the call.  The model is assembled from components *)
+(*                  of any built-in type (e.kinds names them).              *)
 (*                                                                         *)
 (* Numbers are observations <<m, e>> = m * 10^e with 9-digit mantissas     *)
 (* (m < 0: NaN / Inf / negative / entry absent) and all relations of       *)
@@ -113,10 +126,20 @@ ChemFails(e) ==
                  \cup (IF \A k \in 1..e.n : WeightedMeanRel(DMul, DAdd, Same, DInt(0), mu[k], mix, k, w)
                        THEN {} ELSE {"mu_is_weighted_mean_of_layer"})
 
+\* components only read the arrays they share with the model and with their callers: two consecutive
+\* reads of an exposed array are identical (exactly: no tolerance), a handed array is unchanged
+PairOk(p) == p.same /\ RepeatableRel(p.a, p.b)
+ReadsFails(e) ==
+    (IF \A j \in 1..Len(e.pairs) : PairOk(e.pairs[j]) THEN {} ELSE {"reads_repeatable"})
+    \cup (IF \A j \in 1..Len(e.handed) : PairOk(e.handed[j]) THEN {} ELSE {"handed_arrays_unchanged"})
+ReadsWrong(e) == {e.pairs[j].name : j \in {jj \in 1..Len(e.pairs) : ~PairOk(e.pairs[jj])}}
+                 \cup {e.handed[j].name : j \in {jj \in 1..Len(e.handed) : ~PairOk(e.handed[jj])}}
+
 Fails(e) == IF e.ev = "levels" THEN LevelsFails(e)
             ELSE IF e.ev = "chem" THEN ChemFails(e)
             ELSE IF e.ev = "step" THEN StepFails(e)
             ELSE IF e.ev = "profiles" THEN ProfilesFails(e)
+            ELSE IF e.ev = "reads" THEN ReadsFails(e)
             ELSE {"unknown_event"}
 
 Init == l = 1
@@ -125,7 +148,8 @@ Step == /\ l <= Len(TraceLog)
                f == Fails(e)
            IN  IF f = {} THEN TRUE
                ELSE PrintT(<<"BAD", ToJson([l |-> l, id |-> e.id, ev |-> e.ev, why |-> f,
-                                            wrong |-> IF e.ev = "profiles" THEN WrongLengths(e.n, e.lens, Need(e)) ELSE {}])>>)
+                                            wrong |-> IF e.ev = "profiles" THEN WrongLengths(e.n, e.lens, Need(e))
+                                                      ELSE IF e.ev = "reads" THEN ReadsWrong(e) ELSE {}])>>)
         /\ l' = l + 1
 Spec == Init /\ [][Step]_l
 Accepted == TLCGet("stats").diameter - 1 = Len(TraceLog)
